@@ -151,7 +151,7 @@ class Gen:
             if not f['rdonly']:
                 kinds += ['IPUT fx', 'IPUT rc', 'IPUT sm', 'IPUT rs'] * 2
                 if f['attached'] and f['pbput'] < 4:
-                    kinds += ['BPUT fx', 'BPUT rc', 'BPUT sm', 'BPUT rs']
+                    kinds += ['BPUT fx', 'BPUT rc', 'BPUT sm', 'BPUT rs'] * 3
             if pend and r.chance(1, 6):
                 a = self.send('WAITALL %d' % ncid)
                 self.count('call:WAITALL')
